@@ -12,6 +12,8 @@ LOOPS = {}
 LOOPS.update(C01.LOOPS)
 
 FUNCTIONS = [
+    "someip.header.SOMEIPSDHeader.resolve_options",
+    "someip.header.SOMEIPSDEntry.resolve_options",
     "someip.header._unpack",
     "someip.header.SOMEIPHeader.parse",
     "someip.header.SOMEIPHeader._parse_header",
@@ -116,6 +118,9 @@ HARNESSES = (
     + [ob_someip_parse_clean, ob_entry_parse_clean, ob_option_parse_clean, ob_option_payload_parsers_clean, ob_config_parse_clean, ob_sd_parse_clean]
     + [C01.ob_datagram_iteration, ob_sd_datagram_never_raises]
     + SS.MESSAGE_RECEIVED_OBLIGATIONS
+    # what message_received hands on is the decoded header with its options resolved: the
+    # flags (a clear unicast flag makes the dispatcher ignore the message) are the decoder's
+    + [SC.ob_entry_resolve_options_refines, SC.ob_sd_resolve_options]
     + SS.DISPATCH_OBLIGATIONS
     + [C16.ob_message_received, canary_decoder_accepts_everything]
 )
